@@ -131,6 +131,8 @@ def upd (ds : List Dir) (d : String) (f : Mon → Mon × String) : List Dir × S
 def monStep (ds : List Dir) : List String → List Dir × String
   | "new" :: _ => ([], "ok")
   | "note" :: _ => (ds, "ok")
+  -- a reader of a shadow unreliable tube (same id as a reliable one, never written on) got a message
+  | "stray" :: _ => (ds, "message-on-a-tube-nobody-wrote-on")
   | ["written", d, hex] => match fromHex hex with
     | some b => upd ds d fun m =>
       if m.closedW then (m, "write-after-close") else ({ m with written := m.written ++ b }, "ok")
